@@ -331,6 +331,13 @@ func planE1(prop, tier string) *e1Plan {
 	default:
 		fatalf("planE1: %s", prop)
 	}
+	// small (directed) scopes first: if an overloaded machine makes the run hit its internal
+	// deadline, what is cut off is the tail of the largest product scope
+	size := map[string]int{}
+	for _, c := range p.cases {
+		size[c.Scope]++
+	}
+	sort.SliceStable(p.cases, func(i, j int) bool { return size[p.cases[i].Scope] < size[p.cases[j].Scope] })
 	return p
 }
 
